@@ -2,6 +2,7 @@ package icmp
 
 import (
 	"context"
+	"errors"
 	"net"
 	"sync"
 	"time"
@@ -9,6 +10,9 @@ import (
 	"github.com/postalsys/muti-metroo/internal/crypto"
 	"github.com/postalsys/muti-metroo/internal/identity"
 )
+
+// errSessionClosed is returned by Encrypt and Decrypt once Close has cleared the key.
+var errSessionClosed = errors.New("session closed")
 
 // SessionState represents the state of an ICMP session.
 type SessionState int
@@ -209,6 +213,12 @@ func (s *Session) Encrypt(plaintext []byte) ([]byte, error) {
 	s.mu.RLock()
 	defer s.mu.RUnlock()
 
+	// Close clears the key: a reply read just before the close must not fall
+	// through to the unencrypted mode and leave in the clear.
+	if s.closed {
+		return nil, errSessionClosed
+	}
+
 	if s.SessionKey == nil {
 		return plaintext, nil
 	}
@@ -223,6 +233,10 @@ func (s *Session) Encrypt(plaintext []byte) ([]byte, error) {
 func (s *Session) Decrypt(ciphertext []byte) ([]byte, error) {
 	s.mu.RLock()
 	defer s.mu.RUnlock()
+
+	if s.closed {
+		return nil, errSessionClosed
+	}
 
 	if s.SessionKey == nil {
 		return ciphertext, nil
